@@ -1159,6 +1159,7 @@ def mon_c14(sc, res):
         routed = [(d, v) for d, ok, v in sends if is_obj(v) and cget(v, b"method") is not None and isinstance(cget(v, b"id"), bytes)]
         cands = []
         elem_at = {}
+        all_wants = {}       # element -> deadline every set/call of this step on it would get (None: unknown)
         dups = dup_ids(reqs)
         for c, top in reqs:
             rs, _ = flatten_requests(top)
@@ -1183,6 +1184,11 @@ def mon_c14(sc, res):
                     # the element's declared timeout as it is when THIS request is processed (a later request of the same
                     # step may remove the element and add it again with another timeout)
                     elem_at[id(r)] = elem_timeout.get(cget(params, b"path"), None)
+                    t_own = cget(params, b"timeout")
+                    if isinstance(t_own, float) and not isinstance(t_own, bool) and t_own >= 0.001 and t_own * 1e9 < 2.0 ** 64:
+                        all_wants.setdefault(cget(params, b"path"), []).append(int(t_own * 1e9))
+                    elif t_own is None:
+                        all_wants.setdefault(cget(params, b"path"), []).append(elem_at[id(r)])
         if len(arms) != len(routed) and not any(not ok for d, ok, v in sends):
             fails.append("step %d: %d timers armed for %d routed requests" % (si, len(arms), len(routed)))
         per_path = {}
@@ -1229,8 +1235,13 @@ def mon_c14(sc, res):
             if any(w is None for _, w, _ in lst):
                 continue
             got_v, want_v = sorted(a for a, _, _ in lst), sorted(w for _, w, _ in lst)
+            others = all_wants.get(path, [])
+            if None in others:
+                continue
             for a, w in zip(got_v, want_v):
-                if abs(a - w) > 1:
+                # (a routed message cannot always be attributed to one of several requests of the step on the same element -
+                # numeric ids are not echoed in the routed id, a batch may end half-way: any of them may explain the value)
+                if abs(a - w) > 1 and not any(abs(a - o) <= 1 for o in others):
                     srcs = "/".join(sorted(set(x for _, _, x in lst)))
                     fails.append("step %d: request on %s armed %d ns, expected %d ns (%s)" % (si, show(path), a, w, srcs))
                     break
